@@ -244,7 +244,9 @@ func (a *taintAn) flow(fn *ssa.Function, storeI *types.Interface, out *[]taintFi
 					}
 					progress = set(x, get(x.Tuple)) || progress
 				case *ssa.Slice:
-					progress = set(x, get(x.X)) || progress
+					// a slice of an array that holds owned values (the one-element array of an
+					// append) holds them too
+					progress = set(x, get(x.X)|boolBits(a.heldType[typeKey(x.X.Type())], tHolds)) || progress
 				case *ssa.FieldAddr:
 					// address inside an owned object is owned
 					progress = set(x, get(x.X)&tOwn) || progress
